@@ -44,6 +44,10 @@ func Strings(o Opt) []Labeled {
 		{"pct-looking", protoreflect.ValueOfString("x%2Fy%20z")},
 		{"dot-segments", protoreflect.ValueOfString("..")},
 		{"quotes", protoreflect.ValueOfString(`q"u\o'te<>&`)},
+		// text that template engines and replace functions treat specially (JavaScript replacement
+		// patterns, Go regexp expansion, the path template's own brace syntax)
+		{"replace-patterns", protoreflect.ValueOfString("a$&b$'c$`d$$e$1${x}")},
+		{"template-braces", protoreflect.ValueOfString("{id}{user_id}{}x")},
 	}
 	if !o.URLSafe {
 		out = append(out, Labeled{"empty", protoreflect.ValueOfString("")})
